@@ -31,7 +31,7 @@ fn main() {
     let deck = if short { "short" } else { "std" };
     let full = deck_mask();
     let nriver = if a.thorough() { 20000 } else { 1200 };
-    let nturn = if a.thorough() { 300 } else { 12 };
+    let nturn = if a.thorough() { 300 } else { 18 };
     let perms = Permutation::exhaust();
     run.rule = format!("{nriver} random river observations (structured: 40% with >=3 board cards of one suit, 20% paired boards, rest uniform) and {nturn} random turn observations of the configured deck; each river observation: real equity + bucket on the original and on all 24 suit relabelings, independent rules oracle over all unseen two-card holdings; each turn observation: real 46-child histogram on the original and 5 relabelings; non-trivial = equity strictly between 0 and 1; distinct by observation");
     let gen_obs = |rng: &mut Rng, nboard: usize| -> (u64, u64) {
@@ -113,13 +113,50 @@ fn main() {
             }
         }
     }
-    for _ in 0..nturn {
-        let (pocket, public) = gen_obs(&mut rng, 4);
+    for t in 0..nturn {
+        let (pocket, public) = if t % 3 == 0 {
+            // double-paired two-tone board (e.g. Kh Kd 7h 7d) with a pocket that is asymmetric in the two suits
+            let ranks: Vec<u64> = (0..13u64).filter(|r| (0xFu64 << (4 * r)) & full != 0).collect();
+            let r1 = ranks[rng.below(ranks.len() as u64) as usize];
+            let r2 = loop { let r = ranks[rng.below(ranks.len() as u64) as usize]; if r != r1 { break r; } };
+            let s1 = rng.below(4);
+            let s2 = loop { let s = rng.below(4); if s != s1 { break s; } };
+            let public = 1u64 << (4 * r1 + s1) | 1u64 << (4 * r1 + s2) | 1u64 << (4 * r2 + s1) | 1u64 << (4 * r2 + s2);
+            let suit1 = (0..13).fold(0u64, |m, r| m | 1u64 << (4 * r + s1)) & full & !public;
+            let pocket = if rng.chance(1, 2) { rng.cards(2, suit1) } else { rng.cards(1, suit1) | rng.cards(1, full & !public & !suit1) };
+            (pocket, public)
+        } else {
+            gen_obs(&mut rng, 4)
+        };
         let o = obs(pocket, public);
         run.evaluations += 1;
         let h = match catch(|| hist_of(&o)) { Some(h) => h, None => { run.line(&format!("hist {deck} {pocket} {public}"), "panic"); continue; } };
         run.line(&format!("hist {deck} {pocket} {public}"), &h.iter().map(|(i, c)| format!("{i}:{c}")).collect::<Vec<_>>().join(","));
         run.spec_checked += 1;
+        // independent oracle: bucket of every river child from the rules enumeration
+        {
+            let mut want: std::collections::BTreeMap<usize, usize> = Default::default();
+            let seen4 = pocket | public;
+            for c in (0..52u8).filter(|c| (full & !seen4) >> c & 1 == 1) {
+                let board = public | 1u64 << c;
+                let seen = pocket | board;
+                let hero = poker::best5(seen, short);
+                let unseen: Vec<u8> = (0..52u8).filter(|x| (full & !seen) >> x & 1 == 1).collect();
+                let (mut w, mut tt) = (0u32, 0u32);
+                for i in 0..unseen.len() {
+                    for j in i + 1..unseen.len() {
+                        let vb = poker::best5(board | 1u64 << unseen[i] | 1u64 << unseen[j], short);
+                        match hero.cmp(&vb) { std::cmp::Ordering::Greater => { w += 1; tt += 1 } std::cmp::Ordering::Less => { tt += 1 } _ => {} }
+                    }
+                }
+                let eq = if tt == 0 { 0.5f32 } else { w as f32 / tt as f32 };
+                *want.entry((eq * 100.0).round() as usize).or_insert(0) += 1;
+            }
+            let want: Vec<(usize, usize)> = want.into_iter().collect();
+            if want != h {
+                run.fail("histogram-not-exact-enumeration", &format!("turn pocket={pocket} public={public} ({o})"), &format!("{:?}", want), &format!("{:?}", h));
+            }
+        }
         let nchild: usize = h.iter().map(|x| x.1).sum();
         let expect_children = (full & !(pocket | public)).count_ones() as usize;
         if nchild != expect_children {
